@@ -55,6 +55,8 @@ Definition check_static (c : static_case) : bool :=
          && match sc_nouts c with Some n => Nat.eqb n nouts | None => true end
      | None => false
      end
+  (* _get_block_composite_vars: the support symbols of every composite block variable are live into the statement *)
+  && composites_admitted (s_live_in (sc_sets c)) (sc_vars c)
   && match emit_opts (tpl_of (sc_kind c)) loop_options_gen
                      (option_map (map (fun k => (k, k))) (sc_opts_anno c)) (fun s => s) (sc_target c),
            sc_opts_keys c with
